@@ -96,6 +96,12 @@ func (g *Gen) specType(name string) (types.Type, string) {
 	if strings.HasPrefix(name, "(") {
 		return nil, name
 	}
+	if strings.HasPrefix(name, "[]") {
+		et, _ := g.specType(strings.TrimPrefix(name, "[]"))
+		if et != nil {
+			return types.NewSlice(et), "Slice"
+		}
+	}
 	if strings.HasPrefix(name, "seq:") {
 		et, es := g.specType(strings.TrimPrefix(name, "seq:"))
 		sort := "(Array Int " + es + ")"
